@@ -11,6 +11,8 @@ Line-protocol driver for the C01 model (SafeFlow).  One request per line:
             | A<n> v1 … vn | M<n> k:<hex> v1 … k:<hex> vn
   prog      prefix coded, see `parseProg`
 
+  esc <hex>     → ok <hex of escape_html(bytes)> <utf8Valid(in)><utf8Valid(out)>
+
 Answer:  ok <hex of the output bytes> <one tag letter per byte: l e c r>   |   err <class>
 -/
 import TeraModel.Model.SafeFlow
@@ -147,8 +149,20 @@ def parseCtx (n : Nat) (ts : List String) : Option (List (String × TVal) × Lis
       pure ((name, v) :: es, r'')
     | [] => none
 
+/-- the configured escaper the harness uses for its routing stream: the five special characters
+become `(lt) (gt) (amp) (q) (a)`, every other byte is copied -/
+def parenEscaper (bs : List Nat) : List Nat :=
+  bs.flatMap (fun x =>
+    if x == 60 then "(lt)".toUTF8.toList.map (·.toNat)
+    else if x == 62 then "(gt)".toUTF8.toList.map (·.toNat)
+    else if x == 38 then "(amp)".toUTF8.toList.map (·.toNat)
+    else if x == 34 then "(q)".toUTF8.toList.map (·.toNat)
+    else if x == 39 then "(a)".toUTF8.toList.map (·.toNat)
+    else [x])
+
 def parseEscaper (s : String) : Option (List Nat → List Nat) :=
   if s == "html" then some Tera.Escape.escapeHtml
+  else if s == "paren" then some parenEscaper
   else match splitColon s with
     | ["map", b, h] => do
       let b ← b.toNat?
@@ -183,6 +197,12 @@ def handle (line : String) : String :=
         | none => "bad-ctx"
       | none => "bad-ctx"
     | _, _ => "bad-request"
+  | ["esc", h] =>
+    match hexL h with
+    | some bs => "ok " ++ Wire.bytesHex (Tera.Escape.escapeHtml bs) ++ " " ++
+        (if Tera.Escape.utf8Valid bs then "1" else "0") ++ (if Tera.Escape.utf8Valid (Tera.Escape.escapeHtml bs) then "1" else "0")
+    | none => "bad-hex"
+  | ["esc"] => "ok  11"
   | _ => "bad-request"
 
 partial def loop (h : IO.FS.Stream) (out : IO.FS.Stream) : IO Unit := do
